@@ -1,12 +1,13 @@
-\* C15 timing facet: activation from scratch, equal timestamps and slow blocks, penalty boundary
+\* C15 timing facet with a half-second clock (Units = 2): block times with sub-second parts (dt 0 / 1 / 3 half seconds), penalty
+\* of 3 half seconds, request times truncated to whole seconds: activation boundary and the since < request-time rule
 CONSTANTS
   Val = {v1, v2}
   Stranger = {x1}
   MaxReq = 2
-  Units = 1
+  Units = 2
   ExpSet = {1}
-  PenaltySet = {0, 2}
-  DtSet = {0, 2}
+  PenaltySet = {0, 3}
+  DtSet = {0, 1, 3}
   AskSet = {1, 2}
   MinSet = {1}
   ShapeSet = {"exact"}
